@@ -13,7 +13,10 @@ RULE = ("histories drawn from one PRNG (VERIF_SEED): GRcreate (dims 1..9 x 1..9,
         "whole), GRreqimageil (0..2), GRreadimage (whole / rectangle / strided), GRgetiminfo, raw element dump and "
         "GRend/Hclose/reopen; palettes (GRwritelut, GRreqlutil, GRreadlut, GRgetlutinfo, invalid palette shapes); "
         "two images interleaved in one file; direct calls of GRIil_convert for all 3x3 interlace pairs; rejected "
-        "arguments (stride or count < 1).  Compressed (non-chunked) images are written once (the format does not "
+        "arguments (stride or count < 1); palettes attached or replaced in a LATER session for every image kind; "
+        "old-style rasters (DFR8addimage with and without RLE, widths 1..9, 60, 119..131, 255..260 with runs of "
+        "119..300 equal pixels; DF24addimage) read, dumped, rewritten through GR and reopened; direct DFCIrle + "
+        "DFCIunrle on rows of up to 400 bytes; GRwritechunk / GRreadchunk on chunk lengths dividing the dimensions.  Compressed (non-chunked) images are written once (the format does not "
         "allow partial rewrites) and then only read.  A case is one compared operation result; it is non-trivial when "
         "it lies in the property's domain and transfers at least one pixel; distinct by (geometry, interlaces, "
         "storage, region, data)")
@@ -21,7 +24,8 @@ TRUSTED = ["Coq 8.16.1 kernel",
            "translator gen/gen_consts.py + plugin gen/plugins/gr_exprs.py (initial component pointers, pixel/line "
            "increments, loop bounds, copy length and wrap condition of GRIil_convert; img_offset, fill_lo/hi/line/"
            "stride sizes, pix_len, stride_add, row increments and trailing-line loops of GRwriteimage/GRreadimage; "
-           "count[] of GRreadlut) run on mfgr.c through gcc -E",
+           "count[] of GRreadlut; run window, run threshold, literal flush limit, count flag and mask of dfrle.c) "
+           "run on mfgr.c / dfrle.c through gcc -E",
            "extraction: Require Extraction + ExtrOcamlBasic; no Extract Constant; nat/Z extracted as inductives",
            "OCaml driver extract/gr_main.ml, C harness harness/drive_gr.c (Hseek/Hwrite/Hread observed through "
            "-Wl,--wrap), comparison in checks/C09.py",
@@ -36,7 +40,9 @@ ASSUMPTIONS = ["host is little-endian", "regions lie inside the image (GRwriteim
                "an image receives its first write in the session that created it (a partial first write in a later "
                "session is rejected by the library: fill_img is a per-session flag of GRcreate)",
                "compressed, non-chunked images are written by one GRwriteimage call and then only read",
-               "GRwritechunk / GRreadchunk are not driven"]
+               "GRwritechunk / GRreadchunk are driven for chunk lengths that divide the image dimensions",
+               "an old-style compressed raster (DFTAG_RLE) is rewritten through GR only with data of the same "
+               "compressed size (it is recompressed in place and cannot grow; a larger image makes GRend FAIL)"]
 
 NTS = {3: 1, 4: 1, 20: 1, 21: 1, 22: 2, 23: 2, 24: 4, 25: 4, 5: 4, 6: 8}
 LITEND = 16384
@@ -264,6 +270,182 @@ def gen_malformed_history(r, hid, stats):
     return ops
 
 
+def long_run_row(r, w):
+    """a row of w bytes with runs whose lengths sit around the coder limits (3, 120, 121, 127..131, 255..260)"""
+    out = []
+    while len(out) < w:
+        c = r.random()
+        if c < 0.45:
+            n = r.choice([119, 120, 121, 122, 126, 127, 128, 129, 130, 131, 240, 241, 255, 256, 257, 260, 300])
+            out += [r.choice([0, 7, 200, 255, r.randrange(256)])] * n
+        elif c < 0.6:
+            out += [r.randrange(256)] * r.choice([1, 2, 3, 4])
+        elif c < 0.8:   # literals without repeats (exercises the 120/121 literal flush)
+            n = r.choice([1, 5, 119, 120, 121, 122, 125])
+            st = r.randrange(256)
+            out += [(st + 3 * i + (i * i) % 5) & 255 for i in range(n)]
+        else:
+            out += [r.randrange(256) for _ in range(r.randrange(1, 9))]
+    return out[:w]
+
+
+def gen_legacy_history(r, hid, stats):
+    """old-style rasters (DFR8addimage with RLE / without, DF24addimage) read and rewritten through GR"""
+    ops = ["H %d" % hid]
+    ims = []
+    for k in range(r.choice([1, 1, 2])):
+        im = Img(r, k, small=True)
+        im.cs = 1
+        if r.random() < 0.8:
+            im.nc = 1
+            im.x = r.choice([1, 3, 9, 60, 119, 120, 121, 122, 123, 127, 128, 129, 130, 131, 255, 256, 257, 258, 260])
+            im.y = r.choice([1, 2, 3, 4])
+            ct = 1 if r.random() < 0.85 else 0
+            data = []
+            for _ in range(im.y):
+                data += long_run_row(r, im.x)
+            im.store = "oldrle" if ct else "old8"
+        else:
+            im.nc = 3
+            im.x, im.y = r.randrange(1, 10), r.randrange(1, 6)
+            ct = 0
+            data = rand_bytes(r, im.x * im.y * 3)
+            im.store = "old24"
+        im.il = 0
+        im.nt = 3
+        im.written = True
+        im.data = data
+        ops.append("O %d %d %d %d %d %d %s" % (k, im.x, im.y, im.nc, ct, len(data), " ".join(map(str, data))))
+        stats["store_" + im.store] += 1
+        stats["legacy_width_%s" % ("ge255" if im.x >= 255 else "120_131" if im.x >= 119 else "small")] += 1
+        ims.append(im)
+    for _ in range(r.randrange(3, 8)):
+        im = r.choice(ims)
+        c = r.random()
+        if c < 0.5:
+            ops.append(op_read(im, rand_region(r, im)))
+            stats["read_legacy"] += 1
+        elif c < 0.6:
+            ops.append("I %d %d" % (im.k, r.randrange(3)))
+        elif c < 0.7:
+            if not getattr(im, "dirty", False):     # the buffered rewrite reaches the file when the access ends
+                ops.append("D %d" % im.k)
+        elif c < 0.8:
+            ops.append("G %d" % im.k)
+        elif c < 0.9:
+            im.dirty = True
+            # rewrite through GR.  An old-style compressed raster is recompressed in place and cannot grow,
+            # so the new pixels are a byte substitution of the old ones (same run structure, same size).
+            n = im.x * im.y * im.nc
+            d = r.randrange(1, 256)
+            im.data = [(v + d) & 255 for v in im.data]
+            ops.append("W %d 0 0 1 1 %d %d %d %s" % (im.k, im.x, im.y, n, " ".join(map(str, im.data))))
+            stats["write_legacy_whole"] += 1
+        else:
+            ops.append("E")
+            for j in ims:
+                j.dirty = False
+    ops.append("E")
+    for im in ims:
+        ops.append("I %d %d" % (im.k, r.randrange(3)))
+        ops.append(op_read(im, (0, 0, 1, 1, im.x, im.y)))
+        ops.append("D %d" % im.k)
+    return ops
+
+
+def gen_rle_history(r, hid, stats):
+    ops = ["H %d" % hid]
+    for _ in range(5):
+        w = r.choice([1, 2, 3, 4, 119, 120, 121, 122, 127, 128, 129, 130, 131, 240, 241, 242, 255, 256, 257, 260, 300, 400])
+        ops.append("U %d %s" % (w, " ".join(map(str, long_run_row(r, w)))))
+        stats["rle_rows"] += 1
+    return ops
+
+
+def gen_late_lut_history(r, hid, stats):
+    """palette attached / replaced in a LATER session than the one that created the image, for every image kind"""
+    ops = ["H %d" % hid]
+    ims = [Img(r, k, small=True) for k in range(r.choice([1, 1, 2, 3]))]
+    kind_cycle = r.randrange(4)
+    for im in ims:
+        c = (kind_cycle + im.k) % 4
+        if c == 0:
+            im.nt, im.cs, im.nc = 21, 1, r.choice([1, 3])      # the images that also get an old-style RIG
+        elif c == 1:
+            im.nt, im.cs, im.nc = 21, 1, r.choice([2, 4, 5])
+        ops.append(op_create(im))
+        sk = r.random()
+        if sk < 0.2:
+            ops.append("Z %d %d %d" % (im.k, r.choice([1, 4]), 6))
+            im.store = "comp"
+        elif sk < 0.4:
+            ops.append("K %d %d %d 0 0" % (im.k, r.randrange(1, im.x + 1), r.randrange(1, im.y + 1)))
+            im.store = "chunk"
+        ops.append(op_write(r, im, (0, 0, 1, 1, im.x, im.y)))
+        stats["late_lut_kind_nt%d_nc%d_%s" % (im.nt & 4095, min(im.nc, 4), im.store)] += 1
+    early = [im for im in ims if r.random() < 0.25]
+    for im in early:
+        ops.append("L %d 3 21 0 256 768 %s" % (im.k, " ".join(map(str, rand_bytes(r, 768)))))
+    ops.append("E")
+    for rounds in range(r.choice([1, 2])):
+        touched = [im for im in ims if r.random() < 0.7] or [ims[0]]
+        for im in touched:
+            if r.random() < 0.3:
+                ops.append("P %d" % im.k)
+            ops.append("L %d 3 %d 0 256 768 %s" % (im.k, r.choice([21, 3]), " ".join(map(str, rand_bytes(r, 768)))))
+            stats["lut_late_session"] += 1
+            if r.random() < 0.3:
+                ops.append("J %d %d" % (im.k, r.randrange(3)))
+                ops.append("P %d" % im.k)
+        ops.append("E")
+        for im in ims:
+            ops.append("P %d" % im.k)
+    im = r.choice(ims)
+    ops.append(op_read(im, (0, 0, 1, 1, im.x, im.y)))
+    ops.append("G %d" % im.k)
+    return ops
+
+
+def gen_chunk_history(r, hid, stats):
+    """GRwritechunk / GRreadchunk mixed with region access; chunk lengths divide the image dimensions"""
+    ops = ["H %d" % hid]
+    im = Img(r, 0)
+    ops.append(op_create(im))
+    if r.random() < 0.6:
+        ops.append(op_fill(r, im))
+    c0 = r.choice([d for d in range(1, im.x + 1) if im.x % d == 0])
+    c1 = r.choice([d for d in range(1, im.y + 1) if im.y % d == 0])
+    ct = r.choice([0, 0, 1, 3, 4])
+    ops.append("K 0 %d %d %d %d" % (c0, c1, ct, {0: 0, 1: 0, 3: 2, 4: 6}[ct]))
+    im.store = "chunk%d" % ct
+    n = c0 * c1 * im.psz()
+    stats["chunk_store_%d" % ct] += 1
+    for _ in range(r.randrange(4, 11)):
+        c = r.random()
+        o0, o1 = r.randrange(im.x // c0), r.randrange(im.y // c1)
+        if c < 0.3:
+            ops.append("X 0 %d %d %d %d %d %s" % (c0, c1, o0, o1, n, " ".join(map(str, rand_bytes(r, n)))))
+            stats["chunk_write"] += 1
+            stats["chunk_wil_%d" % im.il] += 1
+        elif c < 0.55:
+            ops.append("Y 0 %d %d %d %d %d" % (c0, c1, o0, o1, n))
+            stats["chunk_read"] += 1
+        elif c < 0.65:
+            ops.append(op_write(r, im, rand_region(r, im)))
+        elif c < 0.8:
+            ops.append(op_read(im, rand_region(r, im)))
+        elif c < 0.9:
+            ops.append("I 0 %d" % r.randrange(3))
+        else:
+            ops.append("E")
+            im.il = 0
+    ops.append("E")
+    ops.append("I 0 %d" % r.randrange(3))
+    ops.append("Y 0 %d %d %d %d %d" % (c0, c1, r.randrange(im.x // c0), r.randrange(im.y // c1), n))
+    ops.append(op_read(im, (0, 0, 1, 1, im.x, im.y)))
+    return ops
+
+
 class Stats(dict):
     def __missing__(self, k):
         return 0
@@ -281,10 +463,18 @@ def gen_histories(ctx):
             hid += 1
     for i in range(n):
         c = r.random()
-        if c < 0.8:
+        if c < 0.56:
             hs.append(gen_image_history(r, hid, stats))
-        elif c < 0.9:
+        elif c < 0.61:
             hs.append(gen_lut_history(r, hid, stats))
+        elif c < 0.70:
+            hs.append(gen_late_lut_history(r, hid, stats))
+        elif c < 0.80:
+            hs.append(gen_legacy_history(r, hid, stats))
+        elif c < 0.83:
+            hs.append(gen_rle_history(r, hid, stats))
+        elif c < 0.91:
+            hs.append(gen_chunk_history(r, hid, stats))
         elif c < 0.96:
             hs.append(gen_conv_history(r, hid, stats))
         else:
@@ -327,7 +517,7 @@ def run_hist_file(ctx, hists, tag):
             fh.write("\n".join("\n".join(h) for h in todo) + "\n")
         rc, lines = vc.run_lines(exe, p, timeout=900)
         got = split_hist([l for l in lines if l[:2] in ("H ", "C ", "F ", "Z ", "K ", "W ", "I ", "J ", "R ", "G ", "L ",
-                                                        "P ", "E ", "E", "X ", "Y ", "D ", "V ")])
+                                                        "P ", "E ", "E", "X ", "Y ", "D ", "V ", "O ", "U ")])
         if rc == 0 and len(got) == len(todo):
             R += got
             break
@@ -393,7 +583,7 @@ def compare_history(h, r_lines, ms_lines):
             continue
         if sres != "-":
             ncmp += 1
-            if op in "RPV" and sres.startswith("ok "):
+            if op in "RPVUY" and sres.startswith("ok "):
                 ntr += 1
             if rres != sres and rs is None:
                 rs = (i, opline, rres, mres, sres)
@@ -480,7 +670,7 @@ def check_batch(ctx, hists, tag, stats):
         stats["ops"] += len(h)
         stats["compared_results"] += ncmp
         for i, opline in enumerate(h):
-            if opline[:1] in "RWPVG":
+            if opline[:1] in "RWPVGOUXY":
                 ctx.case((opline,), nontrivial=True,
                          sample=({"history": h[0], "op": opline[:100], "lib": (r_lines[i][:100] if i < len(r_lines) else "")}
                                  if (n % 53 == 0 and opline[:1] == "R") else None))
